@@ -6,7 +6,7 @@
 #include "common.h"
 #include <sys/types.h>
 
-static unsigned char sbuf[1 << 17];
+static __thread unsigned char sbuf[1 << 17];
 static size_t unhexs(const char *s, unsigned char *buf, size_t cap)
 {
   size_t n = 0; if (s[0] == 'x' && s[1] == ':') s += 2;
